@@ -85,6 +85,8 @@ func checkC15(r *harness.Run) harness.Coverage {
 	if !r.Thorough() {
 		docs = append(append([]interface{}{}, docs[:40]...), docs[len(docs)-4:]...)
 	}
+	// operands that are equal / ordered either way as numbers, equal as strings and arrays
+	docs = append(docs, univ.Js(`{"a":1,"b":1}`, `{"a":1,"b":2}`, `{"a":2,"b":1}`, `{"a":"x","b":"x"}`, `{"a":[1],"b":[1]}`, `{"a":2,"b":{"a":2}}`)...)
 	g := univ.NewGen(univ.MixedFragment())
 	A := buildExprs(g, wA, nil)
 	var pairs, nontriv, gaps, steps int64
@@ -155,6 +157,13 @@ func checkC15(r *harness.Run) harness.Coverage {
 		_, root := holeAtRoot(ast)
 		return root
 	})
+	// operator contexts with every comparator and logical operator, the hole on either side, next to a field,
+	// a literal or a raw string (a parser that normalises "literal op expression" must keep the meaning)
+	for _, op := range []string{"==", "!=", "<", "<=", ">", ">=", "||", "&&"} {
+		for _, x := range []string{"a", "b", "`1`", "`2`", "'x'", "b.a"} {
+			ctxs = append(ctxs, exprFromText("HOLE "+op+" "+x), exprFromText(x+" "+op+" HOLE"), exprFromText("[HOLE "+op+" "+x+", "+x+" "+op+" HOLE]"))
+		}
+	}
 	E := buildExprs(g, wE, nil)
 	var rtCases int64
 	lp, rp := model.Fixed(model.LPAREN), model.Fixed(model.RPAREN)
